@@ -743,6 +743,12 @@ def differential(E, con, fi, max_paths=64):
     saved = E.contracts
     E.contracts = {k: c for k, c in saved.items() if c.kind != "repo"}
     stats = {"paths": 0, "validated": 0, "not_concretisable": 0, "mismatches": [], "skipped_havoc": 0, "inexact": 0}
+    import ast as _ast
+
+    if any(isinstance(n, (_ast.Yield, _ast.YieldFrom)) for n in _ast.walk(fi.node)):
+        # a generator function: calling it natively runs nothing (it returns the generator / context manager) - nothing to compare
+        stats["generator_not_compared"] = True
+        return stats
     try:
         pending = [[]]
         while pending and stats["paths"] < max_paths:
